@@ -23,9 +23,16 @@ Layers in this file
                            these tables with an empty queue, an empty overlay, no log and the
                            address counter `nx`.
 
-There is no driver for this layer (the executable model is `PState` of Model/MultiTree.lean, driven
-as `c10`); it imports the processing semantics `applyPending` / `drainHeap` and the histories
-`Op` / `Cmd` from Proofs/C10Pipe.lean and Proofs/C10Hist.lean.
+  (4) executable reflections   `legalRunB` (Bool mirror of the hypothesis `LegalRun` of the C02x
+                           theorems, `legalRunB_iff`) and `coreB` (Bool mirror of `core h = core h'`,
+                           `coreB_iff`), used by the driver to CHECK on every replayed history that
+                           the hypothesis of the theorems holds and that the recovered tables are the
+                           atomic heap of the prefix.
+
+The driver of this layer is Model/C02xDriver.lean (command word `c02x`: mixed key-value / multitree
+databases, harness/src/c02x.rs); it calls `cstep`, `recoverHeap`, `crashRecover`, `runOps` of this
+file / of Proofs/C10Hist.lean.  This file imports the processing semantics `applyPending` /
+`drainHeap` and the histories `Op` / `Cmd` from Proofs/C10Pipe.lean and Proofs/C10Hist.lean.
 -/
 import Pdb.Proofs.C10Hist
 
@@ -167,5 +174,95 @@ def recoverHeap (c : CState K D) (n : Nat) : Heap K D :=
     gone, the logs are replayed and deleted; `nx` is the address counter it continues with. -/
 def crashRecover (c : CState K D) (n nx : Nat) : CState K D :=
   CState.start c.p.variant (withNext nx (recoverHeap c n))
+
+/-! ## (4) executable reflections (used by the driver Model/C02xDriver.lean) -/
+
+mutual
+  /-- Bool mirror of `NRef.live` -/
+  def NRef.liveB (h : Heap K D) : NRef D → Bool
+    | .new _ cs => cs.liveB h
+    | .existing a => (h.nodes.get a).isSome
+  /-- Bool mirror of `NRefs.live` -/
+  def NRefs.liveB (h : Heap K D) : NRefs D → Bool
+    | .nil => true
+    | .cons r rs => r.liveB h && rs.liveB h
+end
+
+mutual
+  theorem NRef.liveB_iff (h : Heap K D) : ∀ r : NRef D, r.liveB h = true ↔ r.live h
+    | .new _ cs => by simp only [NRef.liveB, NRef.live]; exact NRefs.liveB_iff h cs
+    | .existing a => by simp only [NRef.liveB, NRef.live, present]
+  theorem NRefs.liveB_iff (h : Heap K D) : ∀ rs : NRefs D, rs.liveB h = true ↔ rs.live h
+    | .nil => by simp [NRefs.liveB, NRefs.live]
+    | .cons r rs => by
+      simp only [NRefs.liveB, NRefs.live, Bool.and_eq_true]
+      exact and_congr (NRef.liveB_iff h r) (NRefs.liveB_iff h rs)
+end
+
+/-- Bool mirror of `Op.legal` -/
+def Op.legalB (h : Heap K D) : Op K D → Bool
+  | .insert k t => (h.roots.get k).isNone && t.children.liveB h
+  | _ => true
+
+theorem Op.legalB_iff (h : Heap K D) (op : Op K D) : op.legalB h = true ↔ op.legal h := by
+  cases op with
+  | insert k t =>
+    simp only [Op.legalB, Op.legal, Bool.and_eq_true, Option.isNone_iff_eq_none]
+    exact and_congr Iff.rfl (NRefs.liveB_iff h t.children)
+  | reference k => simp [Op.legalB, Op.legal]
+  | dereference k => simp [Op.legalB, Op.legal]
+
+/-- Bool mirror of `LegalRun`: the hypothesis of the C02x theorems on a history -/
+def legalRunB (v : Variant) : Heap K D → List (Op K D) → Bool
+  | _, [] => true
+  | h, op :: ops => op.legalB h && legalRunB v (stepOp v h op) ops
+
+theorem legalRunB_iff (v : Variant) (ops : List (Op K D)) :
+    ∀ h : Heap K D, legalRunB v h ops = true ↔ LegalRun v h ops := by
+  induction ops with
+  | nil => intro h; simp [legalRunB, LegalRun]
+  | cons op ops ih =>
+    intro h
+    simp only [legalRunB, LegalRun, Bool.and_eq_true]
+    exact and_congr (Op.legalB_iff h op) (ih _)
+
+/-- Bool mirror of `core h = core h'` (the three tables, entry by entry in list order) -/
+def coreB [DecidableEq D] (h h' : Heap K D) : Bool :=
+  decide (h.nodes.l.map (fun e => (e.1, e.2.data, e.2.children)) =
+            h'.nodes.l.map (fun e => (e.1, e.2.data, e.2.children))) &&
+  decide (h.rc.l = h'.rc.l) &&
+  decide (h.roots.l.map (fun e => (e.1, e.2.1.data, e.2.1.children, e.2.2)) =
+            h'.roots.l.map (fun e => (e.1, e.2.1.data, e.2.1.children, e.2.2)))
+
+private theorem map_inj_of_inj {α β : Type} (f : α → β) (hf : Function.Injective f) :
+    ∀ {a b : List α}, a.map f = b.map f → a = b
+  | [], [], _ => rfl
+  | [], _ :: _, h => by simp at h
+  | _ :: _, [], h => by simp at h
+  | x :: a, y :: b, h => by
+    simp only [List.map_cons, List.cons.injEq] at h
+    rw [hf h.1, map_inj_of_inj f hf h.2]
+
+theorem coreB_iff [DecidableEq D] (h h' : Heap K D) : coreB h h' = true ↔ core h = core h' := by
+  have inj1 : Function.Injective (fun e : Addr × Node D => (e.1, e.2.data, e.2.children)) := by
+    intro a b hab
+    obtain ⟨a1, ⟨ad, ac⟩⟩ := a
+    obtain ⟨b1, ⟨bd, bc⟩⟩ := b
+    simp only [Prod.mk.injEq] at hab
+    obtain ⟨h1, h2, h3⟩ := hab
+    subst h1 h2 h3; rfl
+  have inj2 : Function.Injective
+      (fun e : K × (Node D × Nat) => (e.1, e.2.1.data, e.2.1.children, e.2.2)) := by
+    intro a b hab
+    obtain ⟨a1, ⟨ad, ac⟩, an⟩ := a
+    obtain ⟨b1, ⟨bd, bc⟩, bn⟩ := b
+    simp only [Prod.mk.injEq] at hab
+    obtain ⟨h1, h2, h3, h4⟩ := hab
+    subst h1 h2 h3 h4; rfl
+  obtain ⟨⟨n1⟩, ⟨r1⟩, ⟨o1⟩, x1⟩ := h
+  obtain ⟨⟨n2⟩, ⟨r2⟩, ⟨o2⟩, x2⟩ := h'
+  simp only [coreB, core, Bool.and_eq_true, decide_eq_true_eq, Prod.mk.injEq, FMap.mk.injEq]
+  exact ⟨fun ⟨⟨a, b⟩, c⟩ => ⟨map_inj_of_inj _ inj1 a, b, map_inj_of_inj _ inj2 c⟩,
+    fun ⟨a, b, c⟩ => ⟨⟨congrArg _ a, b⟩, congrArg _ c⟩⟩
 
 end Pdb.MultiTree
